@@ -469,6 +469,80 @@ def run(ctx):
                                               'are computed in another unit than the times the class iterates over, so steps after the first midnight are located at wrong records '
                                               '(or the step count is wrong)' % (c.func.id, v, major, len(vals[major]), cls_)))
     ctx.floor('timetuple calls in the record readers', ncalls, 20)
+    # ---------------- R-STEPARG: the time iteration of every record reader advances by the reader's own step
+    ctx.rule('R-STEPARG', 'record readers: every call of timetuple.timerange passes the time step found in the file (the default of 100 is one hour in HHMM only)')
+    nsa = 0
+    for fmt in ('uamiv', 'temperature', 'height_pressure', 'humidity', 'vertical_diffusivity', 'wind', 'one3d'):
+        m = src.mod(CAMX + fmt + '/Read.py')
+        for q, fn in sorted(m.functions.items()):
+            if '.' not in q or '<locals>' in q or 'Test' in q:
+                continue
+            for c in ast.walk(fn):
+                if isinstance(c, ast.Call) and isinstance(c.func, ast.Name) and c.func.id == 'timerange':
+                    nsa += 1
+                    stp = kw(c, 'step') if kw(c, 'step') is not None else (c.args[2] if len(c.args) > 2 else None)
+                    if stp is not None and 'time_step' in norm(stp):
+                        ctx.ok('R-STEPARG', '%s:%s@%d' % (fmt, q, c.lineno), 'src/PseudoNetCDF/%s %s' % (m.relpath, q), 'step=%s' % norm(stp))
+                    elif stp is None:
+                        ctx.violation(Finding('R-STEPARG', m.relpath, q, api.stmt_of(c), 'timerange is called without the step: it advances by its default of 100 (one hour in HHMM) whatever the '
+                                              'interval of the file, so a file with another interval is iterated at instants it does not contain (index errors, other time flags than the memmap reader)'))
+                    else:
+                        ctx.undec('R-STEPARG', '%s:%s@%d' % (fmt, q, c.lineno), 'src/PseudoNetCDF/%s %s' % (m.relpath, q), 'step argument %s not recognised as the file step' % norm(stp))
+    ctx.floor('timerange calls in the record readers', nsa, 5)
+    # ---------------- R-DATAWINDOW: temperature record reader: byte offset and window of the mapped data = what the record layout says
+    ctx.rule('R-DATAWINDOW', 'temperature Read.py: position offset + dropped leading words = marker + id (12 bytes); mapped words - dropped words = cells of the record')
+    tm_ = src.mod(CAMX + 'temperature/Read.py')
+
+    def const_add(e, base_names):
+        # e = <sum of names in base_names> + K  ->  K  (None if not of that form)
+        try:
+            p_ = to_poly_t(e)
+        except Exception:
+            return None
+        rest = p_
+        for b_ in base_names:
+            rest = rest - Poly.atom(b_)
+        return rest.constval()
+
+    def to_poly_t(e):
+        from ..sizealg import to_poly as _tp3
+        return _tp3(e, {}, atomize=lambda n: n.attr if isinstance(n, ast.Attribute) and isinstance(n.value, ast.Name) and n.value.id == 'self' else None)
+    for posq, mapq, base, cnt_atom, per_layer in (('temperature.__surfpos', 'temperature.__surfmaps', ['data_start_byte'], 'area_count', False),
+                                                  ('temperature.__airpos', 'temperature.__airmaps', ['data_start_byte', 'area_padded_size'], 'cell_count', True)):
+        wq = 'src/PseudoNetCDF/%s %s' % (tm_.relpath, mapq)
+        try:
+            pf, mf_ = tm_.func(posq), tm_.func(mapq)
+            pos0 = [st for st in pf.body if isinstance(st, ast.Assign) and norm(st.targets[0]) == 'pos'][0]
+            k0 = const_add(pos0.value, base)
+            mm_call = [c for c in ast.walk(mf_) if isinstance(c, ast.Call) and dotted(c.func) == 'memmap'][0]
+            shp = mm_call.args[4] if len(mm_call.args) > 4 else kw(mm_call, 'shape')
+            if isinstance(shp, ast.Name):
+                shp = [st for st in iter_stmts(mf_.body) if isinstance(st, ast.Assign) and norm(st.targets[0]) == shp.id][-1].value
+            words = to_poly_t(shp.elts[0])
+            if per_layer:
+                words = words.divexact(Poly.atom('nlayers'))
+            extra = (words - Poly.atom(cnt_atom)).constval()
+            # slices applied to the mapped array: [f:-b] (1-D) or [:, f:-b]
+            front = back = 0
+            for n in ast.walk(mf_):
+                if isinstance(n, ast.Subscript):
+                    sl = n.slice.elts[-1] if isinstance(n.slice, ast.Tuple) else n.slice
+                    if isinstance(sl, ast.Slice) and (sl.lower is not None or sl.upper is not None) and 'tmpmm' in norm(n.value):
+                        front += sl.lower.value if isinstance(sl.lower, ast.Constant) else 0
+                        back += sl.upper.operand.value if isinstance(sl.upper, ast.UnaryOp) and isinstance(sl.upper.operand, ast.Constant) else 0
+            if k0 is None or extra is None:
+                ctx.undec('R-DATAWINDOW', mapq, wq, 'position or window not in the recognised arithmetic form')
+                continue
+            first_byte = k0 + 4 * front
+            kept = extra - front - back
+            if first_byte == 12 and kept == 0:
+                ctx.ok('R-DATAWINDOW', mapq, wq, 'first data byte at record start + %d; %s + %d words mapped, %d + %d dropped' % (first_byte, cnt_atom, extra, front, back))
+            else:
+                ctx.violation(Finding('R-DATAWINDOW', tm_.relpath, mapq, api.stmt_of(mm_call), 'the data window starts %d bytes after the record start (position offset %d + %d dropped words) and keeps %s%+d '
+                                      'words; the record is marker(4) + time/date(8) + %s floats + marker(4): values are shifted by %d cells and the tail is padding of the next record' % (
+                                          first_byte, k0, front, cnt_atom, kept, cnt_atom, (first_byte - 12) // 4)))
+        except (IndexError, AttributeError, TypeError, KeyError) as e:
+            ctx.undec('R-DATAWINDOW', mapq, wq, 'window arithmetic not extracted (%s)' % type(e).__name__)
     # ---------------- R-SELPARAM: no selector parameter of a record-reader method is ignored
     ctx.rule('R-SELPARAM', 'record readers: every parameter of every method is read in its body (a selector that is accepted is also used/forwarded)')
     npar = 0
